@@ -75,6 +75,13 @@ def _solve(i):
             s2.add(*fs)
             s2.add(*T.ground_axioms(fs, depth=2))
             r = s2.check()
+        if r == z3.unknown and kind != 'cover':
+            # third attempt with a 4x budget: verdicts must not flip when all cores are busy
+            s3 = z3.Solver()
+            s3.set('timeout', timeout * 4)
+            s3.add(*fs)
+            s3.add(*T.ground_axioms(fs))
+            r = s3.check()
         return (i, str(r), time.time() - t0, model)
     except Exception:
         return (i, 'error:' + traceback.format_exc()[-400:], time.time() - t0, None)
@@ -105,7 +112,7 @@ def verify_contract(ctx, contract, timeout_ms=None):
         for case in contract.cases():
             vcs, stats = vcs_for(contract, case)
             for v in vcs:
-                v.name = '%s%s:%s' % (contract.qualname, ('{%s}' % case) if case != '' else '', v.name)
+                v.name = '%s%s:%s' % (contract.key_name, ('{%s}' % case) if case != '' else '', v.name)
             allv.extend(vcs)
             ctx.inlined |= set(stats['inlined'])
     except E.Unsupported as e:
